@@ -109,10 +109,10 @@ where
             g.add("service_b", sb);
         }
         1 => {
-            let sa = setup_fail!(node_a.service_builder(&sname).request_response::<u64, u64>().open_or_create(), "service (A)");
+            let sa = setup_fail!(node_a.service_builder(&sname).request_response::<u64, u64>().max_active_requests_per_client(2).max_response_buffer_size(4).open_or_create(), "service (A)");
             let sb = match &node_b {
-                Some(n) => setup_fail!(n.service_builder(&sname).request_response::<u64, u64>().open_or_create(), "service (B)"),
-                None => setup_fail!(node_a.service_builder(&sname).request_response::<u64, u64>().open_or_create(), "service (A2)"),
+                Some(n) => setup_fail!(n.service_builder(&sname).request_response::<u64, u64>().max_active_requests_per_client(2).max_response_buffer_size(4).open_or_create(), "service (B)"),
+                None => setup_fail!(node_a.service_builder(&sname).request_response::<u64, u64>().max_active_requests_per_client(2).max_response_buffer_size(4).open_or_create(), "service (A2)"),
             };
             let c: Client<S, u64, (), u64, ()> = setup_fail!(sa.client_builder().create(), "client");
             let s: Server<S, u64, (), u64, ()> = setup_fail!(sb.server_builder().create(), "server");
@@ -132,6 +132,14 @@ where
                     return config;
                 }
             };
+            // a second request on another channel of the same connection: its pending response is polled while the
+            // response of the first is still held (a connection has one channel per active request)
+            if let Ok(pend2) = c.send_copy(9) {
+                if let Ok(Some(act2)) = s.receive() {
+                    g.add("active2", act2);
+                }
+                g.add("pending2", pend2);
+            }
             g.add("port1", c);
             g.add("port2", s);
             g.add("pending", pend);
@@ -231,6 +239,29 @@ where
                                 Err(_) => {}
                             }
                         }
+                        if let Some(p) = g.get::<PendingResponse<S, u64, (), u64, ()>>("pending2") {
+                            match p.receive() {
+                                Ok(Some(r)) => {
+                                    e.probe("survivor_pending2_received");
+                                    if *r.payload() != 72 {
+                                        e.err("survivor", format!("{what}: the second pending response received {}", *r.payload()));
+                                    }
+                                }
+                                Ok(None) => {}
+                                Err(_) => {}
+                            }
+                        }
+                        if let Some(a) = g.get::<ActiveRequest<S, u64, (), u64, ()>>("active2") {
+                            if **a != 9 {
+                                e.err("survivor", format!("{what}: the second held request payload changed to {}", **a));
+                            }
+                            let _ = a.send_copy(72);
+                        }
+                        if let Some(r) = g.get::<iceoryx2::response::Response<S, u64, ()>>("response") {
+                            if *r.payload() != 70 {
+                                e.err("survivor", format!("{what}: the held response changed to {}", *r.payload()));
+                            }
+                        }
                         if let Some(c) = g.get::<Client<S, u64, (), u64, ()>>("port1") {
                             match c.send_copy(8) {
                                 Ok(p) => {
@@ -325,7 +356,7 @@ impl Harness for ShutdownHarness {
         params.insert("two_nodes".into(), r.chance(0.5) as i64);
         params.insert("svc".into(), r.range(0, 1_000_000));
         let mut ops = Vec::new();
-        for _ in 0..r.range(4, 14) {
+        for _ in 0..r.range(4, 18) {
             if r.chance(0.7) { ops.push(Op::new("drop", &[r.range(0, 9)])) } else { ops.push(Op::new("use", &[])) }
         }
         let plan = Plan { harness: self.name().into(), mode: mode.into(), params, threads: vec![ops] };
